@@ -560,7 +560,7 @@ def output(out: OutputBuffer, aconf: AuditConf, banner: Optional[Banner], header
             software = None
         output_compatibility(out, algs, client_audit)
         if kex is not None:
-            compressions = [x for x in kex.server.compression if x != 'none']
+            compressions = [x for x in kex.server.compression if x not in ('none', '')]  # Note: an empty name-list is parsed as [''].
             if len(compressions) > 0:
                 cmptxt = 'enabled ({})'.format(', '.join(compressions))
             else:
